@@ -342,3 +342,14 @@ def run(facts, rep, ctx):
     from . import round3
     round3.fw1(facts, rep)
 
+
+_run_before_round4b = run
+
+
+def run(facts, rep, ctx):
+    """further rules added after the third seeding round (rules/round4.py)"""
+    _run_before_round4b(facts, rep, ctx)
+    from . import round4
+    round4.fw2(facts, rep)
+    round4.sb5b(facts, rep)
+
